@@ -59,6 +59,7 @@ func cmdDrive(args []string) {
 	first := fs.Int("first", 1, "id of the first trace")
 	only := fs.Int("only", 0, "produce only this trace id (confirm mode)")
 	maxAtoms := fs.Int("maxatoms", 40, "atom cap")
+	bits := fs.Int("bits", 32, "universe width: 32 | 64")
 	fs.Parse(args)
 	f, err := os.Create(*out)
 	if err != nil {
@@ -72,7 +73,13 @@ func cmdDrive(args []string) {
 			continue
 		}
 		r := rand.New(rand.NewSource(*seed*1000003 + int64(id)))
-		u, gens := randUniverse32(r, *maxAtoms)
+		var u *Universe
+		var gens []iset
+		if *bits == 64 {
+			u, gens = randUniverse64(r, *maxAtoms)
+		} else {
+			u, gens = randUniverse32(r, *maxAtoms)
+		}
 		var genAtoms [][]int
 		for _, g := range gens {
 			a, bad := u.project(g)
@@ -89,7 +96,11 @@ func cmdDrive(args []string) {
 			if i+1 > NSLOT {
 				break
 			}
-			e.run(Call{Op: "Build", Dst: i + 1, As: ga, Rcp: pick(r, recipes)})
+			rc := recipes
+			if *bits == 64 {
+				rc = recipes64
+			}
+			e.run(Call{Op: "Build", Dst: i + 1, As: ga, Rcp: pick(r, rc)})
 		}
 		for s := 0; s < *steps; s++ {
 			e.run(g.next(e))
@@ -107,11 +118,15 @@ func cmdDrive(args []string) {
 
 // Script is one TLC-generated behaviour over an abstract structure.
 type Script struct {
-	St    string `json:"st"`
-	Calls []Call `json:"calls"`
+	St     string     `json:"st"`
+	Calls  []Call     `json:"calls"`
+	Struct *Structure `json:"struct,omitempty"` // inline structure (overrides St)
+	Kind   string     `json:"kind,omitempty"`   // forced concretisation kind
+	Base   uint64     `json:"base,omitempty"`   // kind "chunks": key of the first cell
 }
 
 var structures = map[string]Structure{}
+var concBase uint64
 
 func loadStructures(path string) {
 	b, err := os.ReadFile(path)
@@ -162,6 +177,7 @@ func cmdReplay(args []string) {
 	mod := fs.Int("mod", 1, "shard count")
 	rem := fs.Int("rem", 0, "shard index: process script lines with lineno % mod == rem")
 	opf := fs.String("opfilter", "all", "keep scripts whose last call is in this family: all|mut|query|nbr|trans")
+	bits := fs.Int("bits", 32, "universe width: 32 | 64")
 	fs.Parse(args)
 	loadStructures(*structs)
 	in, err := os.Open(*scripts)
@@ -199,6 +215,9 @@ func cmdReplay(args []string) {
 			panic(fmt.Sprintf("bad script line: %v: %s", err, line))
 		}
 		st, ok := structures[s.St]
+		if s.Struct != nil {
+			st, ok = *s.Struct, true
+		}
 		if !ok {
 			panic("unknown structure " + s.St)
 		}
@@ -213,7 +232,11 @@ func cmdReplay(args []string) {
 				continue
 			}
 			r := rand.New(rand.NewSource(*seed*7919 + int64(id)))
-			cc, err := concretise(st, kind, r, 32)
+			if s.Kind != "" {
+				kind = s.Kind
+			}
+			concBase = s.Base
+			cc, err := concretise(st, kind, r, *bits)
 			if err != nil {
 				panic(err)
 			}
@@ -221,11 +244,18 @@ func cmdReplay(args []string) {
 			e.begin()
 			for _, c := range s.Calls {
 				c = mapCall(c, cc)
+				if *bits == 64 && !op64[c.Op] {
+					continue
+				}
 				if c.Op == "Build" {
 					if len(rl) > 0 {
 						c.Rcp = rl[r.Intn(len(rl))]
 					} else if c.Rcp == "" {
-						c.Rcp = pick(r, recipes)
+						if *bits == 64 {
+							c.Rcp = pick(r, recipes64)
+						} else {
+							c.Rcp = pick(r, recipes)
+						}
 					}
 				}
 				if c.Op == "AddOffset" {
@@ -302,3 +332,11 @@ func opFamilyMatch(f, op string) bool {
 	}
 	return false
 }
+
+// calls the 64-bit API offers
+var op64 = map[string]bool{"New": true, "Build": true, "BitmapOf": true, "Clone": true, "Add": true, "AddInt": true, "CheckedAdd": true,
+	"Remove": true, "CheckedRemove": true, "AddMany": true, "AddRange": true, "RemoveRange": true, "Flip": true, "Clear": true,
+	"RunOptimize": true, "SetCOW": true, "Detach": true, "And": true, "Or": true, "Xor": true, "AndNot": true, "AndS": true, "OrS": true,
+	"XorS": true, "AndNotS": true, "AndCard": true, "OrCard": true, "Intersects": true, "Equals": true, "FastOr": true, "FastAnd": true,
+	"ParOr": true, "FlipS": true, "Contains": true, "IsEmpty": true, "Card": true, "Min": true, "Max": true, "Rank": true, "Select": true,
+	"SelectAuto": true, "ToArray": true, "Ser64": true, "Load64": true}
